@@ -188,6 +188,12 @@ void pick_sched(Rng &g, Scn &s, int slot, int T, bool allow_faults) {
   case 7: st = simsched::ST_STARVE; sp = g.below(T + 1); break;
   default: st = simsched::ST_HOOKBIAS; break;
   }
+  if (const char *f = getenv("SIM_FORCE_STRATEGY")) {   // experiments only (tools/strategy_experiment.sh); never set by the checks
+    st = atoi(f);
+    if (st == simsched::ST_STICKY) sp = 900;
+    if (st == simsched::ST_PCT) sp = 3;
+    if (st == simsched::ST_STARVE) sp = (long)g.below(T + 1);
+  }
   s.i["st" + k] = st;
   s.i["sp" + k] = sp;
   s.i["ss" + k] = (long)(g.next() >> 2);
